@@ -63,4 +63,5 @@ func c09(r *Run) {
 	}
 	runEsc(r, forms, byteInputs(r, true, r.N(2000, 100000), []byte(" \"%+~/?&=\\")), judge, second)
 	regionRel(r, "urlencode", "url", r.N(1500, 60000))
+	regionRaw(r, r.N(1500, 40000))
 }
